@@ -113,6 +113,25 @@ theorem fnExprOf_staticEq {w w' : World Val Err Op} (h : StaticEq w w') (f : Fn 
     fnExprOf w' f = fnExprOf w f := by
   cases f <;> simp [fnExprOf, argExprs_staticEq h, argExpr_staticEq h]
 
+theorem refs_staticEq {w w' : World Val Err Op} (h : StaticEq w w') (a : Arg Val) : refs w' a = refs w a := by
+  cases a with
+  | lit v => rfl
+  | param p => simp [refs, h.inputs]
+  | node n =>
+    simp only [refs]
+    have := h.stat n
+    cases h1 : w.nodes[n]? <;> cases h2 : w'.nodes[n]? <;> simp [h1, h2] at this ⊢
+    rw [show (_ : Node Val Err Op).params = (Node.toNStat _).params from rfl, this]
+
+theorem refsAll_staticEq {w w' : World Val Err Op} (h : StaticEq w w') :
+    ∀ as : List (Arg Val), refsAll w' as = refsAll w as
+  | [] => rfl
+  | a :: as => by simp [refsAll, refs_staticEq h a, refsAll_staticEq h as]
+
+theorem fnParamsOf_staticEq {w w' : World Val Err Op} (h : StaticEq w w') (f : Fn Val Op) :
+    fnParamsOf w' f = fnParamsOf w f := by
+  cases f <;> simp [fnParamsOf, refsAll_staticEq h, refs_staticEq h]
+
 /-! ### well-formedness (static) -/
 
 structure NodeWF (w : World Val Err Op) (i : NId) (nd : Node Val Err Op) : Prop where
@@ -124,6 +143,7 @@ structure NodeWF (w : World Val Err Op) (i : NId) (nd : Node Val Err Op) : Prop 
   derived : ∀ p, nd.prev = some p → ∃ pd o es, w.nodes[p]? = some pd ∧ pd.root = nd.root ∧ nd.op = some o ∧
               argExprs w o.args = some es ∧ nd.expr = .app o.op o.reverse pd.expr es
   fnSub : ∀ q ∈ nd.fnParams, q ∈ nd.iparams
+  fp : fnParamsOf w nd.fn = some nd.fnParams
 
 structure WF (w : World Val Err Op) : Prop where
   node : ∀ (i : Nat) (nd : Node Val Err Op), w.nodes[i]? = some nd → NodeWF w i nd
@@ -163,6 +183,7 @@ theorem NodeWF.of_staticEq {w w' : World Val Err Op} (h : StaticEq w w') {i : NI
     · rw [eroot]; exact (e' (·.root)).trans h2
     · rw [eex, h5]; congr 1; exact (e' (·.expr)).symm
   · intro q hq; rw [eip]; exact hw.fnSub q (efp ▸ hq)
+  · rw [efn, efp, fnParamsOf_staticEq h]; exact hw.fp
 
 theorem WF.of_staticEq {w w' : World Val Err Op} (h : StaticEq w w') (hw : WF w) : WF w' := by
   constructor
